@@ -39,6 +39,12 @@ def set_states(values, then='return'):
         me.user_state = v
     if then == 'raise':
         raise ValueError('boom')
+    if then == 'raise_unreceivable':
+        raise NeedsArgs(1, 2)      # pickles in the child, cannot be rebuilt by the parent
+    if then == 'return_none':
+        return None
+    if then == 'return_false':
+        return False
     return len(values)
 
 
